@@ -81,6 +81,9 @@ pub enum Sc {
 		/// it asks to quit and lets its handle go: the command is running when the quit arrives
 		#[serde(default)]
 		await_start: bool,
+		/// the first forced kill fails (the process survives it)
+		#[serde(default)]
+		kill_fault: bool,
 	},
 	Cli { signal: CliSignal, stop_signal_int: bool, stop_timeout: u64, ignores: bool, horizon: u64 },
 }
@@ -126,7 +129,8 @@ pub fn run(sc: &Sc, bounds: Bounds, prefix: &[Point]) -> Result<Exec<Obs>, Strin
 	let ignores = match sc {
 		Sc::Lib { ignores, .. } | Sc::Cli { ignores, .. } => *ignores,
 	};
-	simchild::install(SimCfg { reaction: if ignores { Reaction::Ignore } else { Reaction::ExitNow }, inert_signals: vec![10, 12], spawn_fail_at: None, op_fault: None });
+	let kill_fault = matches!(sc, Sc::Lib { kill_fault: true, .. });
+	simchild::install(SimCfg { reaction: if ignores { Reaction::Ignore } else { Reaction::ExitNow }, inert_signals: vec![10, 12], spawn_fail_at: None, op_fault: kill_fault.then_some((simchild::FaultOp::Kill, 1)) });
 	fakewatcher::install();
 	let sc2 = sc.clone();
 	let cli_args = match sc {
@@ -536,7 +540,9 @@ fn at_end(sc: &Sc, main_result: Option<String>) {
 						_ => false,
 					});
 					let outside = jobs.iter().any(|j| matches!(j, JobClass::HeldOutside));
-					if !ended && !outside {
+					// (after a kill that failed, letting the handle go is all that is left)
+					let kill_failed = log[..i].iter().any(|x| matches!(&x.ev, Ev::Kill { id: c, ok: false } if c == id));
+					if !ended && !outside && !kill_failed {
 						push(format!("C08/graceful-quit-dropped-a-running-process/{key}"), format!("drop#{id} at log {i}: the process was neither over nor stopped"));
 					}
 				}
@@ -717,7 +723,7 @@ pub fn scenarios(tier: Tier) -> Vec<(Sc, Vec<Bounds>)> {
 						continue; // these classes need time to pass between creation and quit
 					}
 					let g = if let Quit::Graceful(g) = q { g } else { 0 };
-					let sc = Sc::Lib { jobs: vec![c], quit: q, ignores, same_action: same, horizon: RESTART_GRACE + g + 4, await_start: false };
+					let sc = Sc::Lib { jobs: vec![c], quit: q, ignores, same_action: same, horizon: RESTART_GRACE + g + 4, await_start: false, kill_fault: false };
 					let passes = match tier {
 						Tier::Quick => [both(0), both(1)].concat(),
 						Tier::Thorough => [both(0), both(1), both(2)].concat(),
@@ -732,8 +738,18 @@ pub fn scenarios(tier: Tier) -> Vec<(Sc, Vec<Bounds>)> {
 	for q in quits {
 		for ignores in [false, true] {
 			let g = if let Quit::Graceful(g) = q { g } else { 0 };
-			let sc = Sc::Lib { jobs: vec![JobClass::Running], quit: q, ignores, same_action: true, horizon: RESTART_GRACE + g + 4, await_start: true };
+			let sc = Sc::Lib { jobs: vec![JobClass::Running], quit: q, ignores, same_action: true, horizon: RESTART_GRACE + g + 4, await_start: true, kill_fault: false };
 			out.push((sc, [both(0), both(1)].concat()));
+		}
+	}
+	// the forced kill at the end of the grace period fails once: the quit still ends (the job is
+	// deleted, its process goes with the handle)
+	for q in quits {
+		if let Quit::Graceful(g) = q {
+			for c in [JobClass::Running, JobClass::MidGracefulRestart] {
+				let sc = Sc::Lib { jobs: vec![c], quit: q, ignores: true, same_action: false, horizon: RESTART_GRACE + g + 6, await_start: false, kill_fault: true };
+				out.push((sc, both(0)));
+			}
 		}
 	}
 	// two jobs: every pair of classes, default schedule only (the worker's HashMap order is
@@ -744,7 +760,7 @@ pub fn scenarios(tier: Tier) -> Vec<(Sc, Vec<Bounds>)> {
 				let ignore_set: &[bool] = if tier == Tier::Thorough { &[false, true] } else { &[true] };
 				for ignores in ignore_set {
 					let g = if let Quit::Graceful(g) = q { g } else { 0 };
-					out.push((Sc::Lib { jobs: vec![a, b], quit: q, ignores: *ignores, same_action: false, horizon: RESTART_GRACE + g + 4, await_start: false }, both(0)));
+					out.push((Sc::Lib { jobs: vec![a, b], quit: q, ignores: *ignores, same_action: false, horizon: RESTART_GRACE + g + 4, await_start: false, kill_fault: false }, both(0)));
 				}
 			}
 		}
